@@ -172,10 +172,17 @@ func runC14(c *Ctx, r *Report, tier string) {
 	// ---- CLASSIFY
 	lineT := "call:strings.TrimSpace(call:readFullLine("
 	var handlers []ssa.Instruction
-	handlers = append(handlers, c.instrs(ri, c.isCallTo("strings.SplitN"))...)
 	for _, b := range ri.Blocks {
 		if iff, ok := b.Instrs[len(b.Instrs)-1].(*ssa.If); ok {
-			if l := c.cond(iff.Cond); strings.HasPrefix(l.Term, "eq(91, idx("+lineT) {
+			l := c.cond(iff.Cond)
+			if strings.HasPrefix(l.Term, "eq(91, idx("+lineT) && len(handlers) == 0 {
+				handlers = append(handlers, iff)
+			}
+		}
+	}
+	for _, b := range ri.Blocks {
+		if iff, ok := b.Instrs[len(b.Instrs)-1].(*ssa.If); ok {
+			if l := c.cond(iff.Cond); strings.HasPrefix(l.Term, "has("+lineT) && strings.HasSuffix(l.Term, `, "=")`) {
 				handlers = append(handlers, iff)
 				break
 			}
@@ -185,8 +192,8 @@ func runC14(c *Ctx, r *Report, tier string) {
 		r.Fail("CLASSIFY", fname, "header / key=value handling", "", "could not locate the `[` test and the SplitN call on the trimmed line")
 	}
 	for _, h := range handlers {
-		what := "key=value split"
-		if _, isIf := h.(*ssa.If); isIf {
+		what := "key=value test"
+		if iff, isIf := h.(*ssa.If); isIf && strings.HasPrefix(c.cond(iff.Cond).Term, "eq(91,") {
 			what = "section header test"
 		}
 		_, a := c.Requires(ri, isInstr(h), litHas(true, "nonempty("+lineT), nil)
@@ -215,10 +222,10 @@ func runC14(c *Ctx, r *Report, tier string) {
 					t := c.term(st.Val)
 					switch fn {
 					case "Name":
-						r.Check(strings.HasPrefix(t, "call:strings.TrimSpace(idx(call:strings.SplitN("+lineT) && strings.Contains(t, `"=", 2), 0))`), "CLASSIFY", fname, "entry name is the trimmed text before the first '='", c.ipos(st), "TrimSpace(SplitN(line, \"=\", 2)[0])", "name is "+trunc(t, 120))
+						r.Check(strings.HasPrefix(t, "call:strings.TrimSpace(before("+lineT) && strings.HasSuffix(t, `, "="))`), "CLASSIFY", fname, "entry name is the trimmed text before the first '='", c.ipos(st), "TrimSpace(before(line, \"=\"))", "name is "+trunc(t, 120))
 					case "Value":
-						okV := strings.Contains(t, "call:strings.TrimSpace(idx(call:strings.SplitN("+lineT) && strings.Contains(t, `"=", 2), 1))`)
-						r.Check(okV, "CLASSIFY", fname, "entry value is the trimmed text after the first '=' (unquoted when quoted)", c.ipos(st), "TrimSpace(SplitN(line, \"=\", 2)[1]) or its strconv.Unquote", "value is "+trunc(t, 160))
+						okV := strings.Contains(t, "call:strings.TrimSpace(after("+lineT)
+						r.Check(okV, "CLASSIFY", fname, "entry value is the trimmed text after the first '=' (unquoted when quoted)", c.ipos(st), "TrimSpace(after(line, \"=\")) or its strconv.Unquote", "value is "+trunc(t, 160))
 					}
 				}
 			}
